@@ -15,7 +15,8 @@ class InterleaveStall(BaseException):
 
 
 class Interleaver:
-    def __init__(self, schedule, in_scope, stall_s=20.0):
+    def __init__(self, schedule, in_scope, stall_s=20.0, max_switches=600):
+        self.max_switches = max_switches    # the schedule is applied cyclically, up to this many switches
         self.schedule = list(schedule)
         self.in_scope = in_scope            # filename -> bool
         self.cond = threading.Condition()
@@ -37,7 +38,7 @@ class Interleaver:
             return
         with self.cond:
             self.si += 1
-            self.budget = self.schedule[self.si] if self.si < len(self.schedule) else 1 << 60
+            self.budget = self.schedule[self.si % len(self.schedule)] if self.si < self.max_switches else 1 << 60
             self.turn = 1 - idx
             self.switches += 1
             self.cond.notify_all()
